@@ -144,7 +144,11 @@ func sampleTyped(rng *rand.Rand, pkg CorpusPkg, mode Mode, i int) CScenario {
 					c.Fault = &Fault{Kind: "cancel", At: 1 + rng.Intn(40)}
 				}
 			case ModeC15:
-				switch rng.Intn(10) {
+				switch rng.Intn(14) {
+				case 10, 11, 12:
+					c.Fault = sampleMangle(rng, []string{fmt.Sprintf("query#%d", rng.Intn(120)), fmt.Sprintf("query#%d", rng.Intn(120)), fmt.Sprintf("header#%d", rng.Intn(12)), fmt.Sprintf("cookie#%d", rng.Intn(6)), fmt.Sprintf("path:%d", rng.Intn(6))})
+				case 13:
+					c.Fault = &Fault{Kind: "dup-query", Arg: fmt.Sprintf("#%d", rng.Intn(120))}
 				case 0, 1:
 					c.Fault = &Fault{Kind: "cut-req", Frac: frac()}
 				case 2:
@@ -209,7 +213,7 @@ func typedExact(r *CRecord, pkg string) []problem {
 	k := firedKind(r)
 	for _, p := range t.Problems {
 		cls := problemClass(p)
-		if (k == "flip" || k == "ctype" || k == "append") && strings.HasPrefix(cls, "request/handler received a different value") {
+		if (k == "flip" || k == "ctype" || k == "append" || k == "mangle" || k == "dup-query") && strings.HasPrefix(cls, "request/handler received a different value") {
 			continue // the damage changed the bytes: a different (well-formed) value is a legitimate reading of them
 		}
 		if k == "flip" && (strings.HasPrefix(cls, "response/") || strings.HasPrefix(cls, "default/")) {
